@@ -74,6 +74,10 @@ SEEDS = [
     [(ADDRESS, ('tz1', T.HM, '')), (ADDRESS, ('KT1', T.H1, 'ep'))],
     [(('key_hash',), ('tz1', T.HM)), (('chain_id',), b'\x7a\x06\xa7\x70')],
     [(BYTES, T.pack(PII, (1, 5))), (BYTES, T.pack(INT, 1)[:-1] + b'\x80\x00')],
+    # a new component whose type has the head constructor of the one it replaces but other arguments (UPDATE n / PAIR / CONS re-derive types)
+    [(('option', STRING), ('Some', 'x')), (('pair', OI, STRING), (('Some', 1), 'a'))],
+    [(('list', STRING), ('x',)), (('pair', NAT, ('pair', LI, BOOL)), (1, ((2, 3), True)))],
+    [(('or', STRING, BYTES), ('R', b'\x00')), (('pair', NAT, ('pair', ('or', INT, NAT), BOOL)), (1, (('L', 2), True)))],
 ]
 
 TYPE_ARGS = [INT, NAT, STRING, PII, OI, LI]
